@@ -39,89 +39,46 @@ def check(chk, fx):
 
 # --------------------------------------------------------------------------------------------- POS-U
 def pos_u(chk, fx):
-    chk.rule("POS-U", "abstract cases of source_point::update", 2)
-    fns = fx.need("ctpg::source_point::update")
-    seen = set()
-    for f in fns:
-        flow.assert_structured(f)
-        start_id, end_id = f.o["params"][0]["id"], f.o["params"][1]["id"]
-        loops = [n for n in (f.body.get("c") or []) if n.get("k") in ("WhileStmt", "ForStmt")]
-        if len(loops) != 1 or len(f.body.get("c") or []) != 1:
-            chk.incomplete("source_point::update: expected a single scan loop as the whole body")
-        loop = loops[0]
-        # loop condition: start != end (in some spelling)
-        alts = flow.cond_atoms(loop["cond"], False)
-        ok_cond = False
-        if len(alts) == 1 and len(alts[0]) == 1:
-            rel = AI.atom_with_outcome(alts[0][0][1], alts[0][0][2])   # relation when the loop exits
-            if rel[0] == "cmp" and rel[1] == "==":
-                ids = {_var_id(rel[2]), _var_id(rel[3])}
-                ok_cond = ids == {start_id, end_id}
-        site = A.site(f, loop)
-        if not ok_cond:
-            chk.violation("POS-U", site, "POS-U:update:loop-exit", "the scan does not stop exactly when start == end")
-            continue
-        # one iteration
-        cases = {"newline": None, "other": None}
-        for ev, term_ in flow.paths(loop["body"], unroll=0):
-            if term_ not in ("fall", "continue"):
-                chk.violation("POS-U", site, "POS-U:update:early-exit", "an iteration leaves the scan early (%s)" % term_)
-                continue
-            cls = None
-            fx_line, fx_col, adv = [], [], 0
-            other_writes = []
-            for e in ev:
-                if e[0] == "cond":
-                    rel = AI.atom_with_outcome(e[1], e[2])
-                    c = _char_test(rel, start_id)
-                    if c is None:
-                        chk.incomplete("source_point::update: unrecognised test %s" % AI.tstr(AI.atom(e[1])[2]))
-                    val, eq = c
-                    if val != 10:
-                        chk.violation("POS-U", A.site(f, e[1]), "POS-U:update:special-char-%d" % val,
-                                      "character %d is treated specially; only '\\n' ends a line" % val)
-                        cls = "bad"
-                        continue
-                    cls = "newline" if eq else "other"
-                elif e[0] == "stmt":
-                    for eff in AI.effects(e[1]):
-                        if eff[0] in ("inc", "set", "assign", "op"):
-                            name = eff[1] if eff[0] != "op" else eff[2]
-                            if name == "this.line":
-                                fx_line.append(eff)
-                            elif name == "this.column":
-                                fx_col.append(eff)
-                            elif eff[0] == "inc" and _path_var(eff[3]) == start_id:
-                                adv += eff[2]
-                            else:
-                                other_writes.append(name)
-            if cls in (None, "bad"):
-                if cls is None:
-                    chk.violation("POS-U", site, "POS-U:update:no-newline-test",
-                                  "a path through the scan does not distinguish '\\n' from other characters")
-                continue
-            cases[cls] = (fx_line, fx_col, adv, other_writes)
-        for cls, want in (("newline", "line+1, column=1"), ("other", "column+1")):
-            got = cases[cls]
-            key = ("POS-U", cls, loop.get("l"))
-            if got is None:
-                chk.violation("POS-U", site, "POS-U:update:%s:missing" % cls, "no path handles the case '%s'" % cls)
-                continue
-            fx_line, fx_col, adv, other = got
-            good = adv == 1 and not other
-            if cls == "newline":
-                good = good and _is(fx_line, [("inc", 1)]) and _is(fx_col, [("set", 1)])
-            else:
-                good = good and not fx_line and _is(fx_col, [("inc", 1)])
-            if good:
-                if key not in seen:
-                    seen.add(key)
-                    chk.ok("POS-U", site, "case %s: %s, iterator advanced once" % (cls, want))
-            else:
-                chk.violation("POS-U", site, "POS-U:update:%s" % cls,
-                              "case %s: expected %s and one iterator advance, found line:%s column:%s advance:%d other:%s"
-                              % (cls, want, _show(fx_line), _show(fx_col), adv, other))
-        # the character tested is the one at `start` before the advance: checked by _char_test (deref of start)
+    from .. import pathsig as PS
+    from ..canon import Canon
+    from ..lr import _drop_noise
+    chk.rule("POS-U", "abstract cases of source_point::update", 4)
+    f = fx.need("ctpg::source_point::update")[0]
+    flow.assert_structured(f)
+    cn = Canon(f)
+    loops = [n for n in (f.body.get("c") or []) if n.get("k") in ("WhileStmt", "ForStmt")]
+    if len(loops) != 1 or len(f.body.get("c") or []) != 1:
+        chk.incomplete("source_point::update: expected a single scan loop as the whole body")
+    loop = loops[0]
+    site = A.site(f, loop)
+    # the scan runs exactly while start != end
+    ex = PS.signed_atoms(cn, loop["cond"], False) if loop.get("cond") is not None else []
+    if not (len(ex) == 1 and [(a, p) for a, p in ex[0]] in ([("($0 == $1)", True)], [("($1 == $0)", True)])):
+        chk.violation("POS-U", site, "POS-U:update:loop-exit", "the scan does not stop exactly when start == end (%s)" % ex)
+        return
+    conds, nodes = PS.event_conditions(cn, loop["body"], unroll=1, drop=_drop_noise)
+    exits = [k for k in conds if k[0] in ("break", "return", "throw")]
+    if exits:
+        chk.violation("POS-U", site, "POS-U:update:early-exit", "an iteration leaves the scan early (%s)" % exits)
+        return
+    conds = {k: v for k, v in conds.items() if k[0] in ("inc", "assign")}
+    if loop.get("k") == "ForStmt" and loop.get("inc") is not None:
+        for e in PS.default_events(cn, loop["inc"]):
+            conds[(e.kind, e.text)] = conds.get((e.kind, e.text), set()) | {frozenset()}
+    NL = "(*$0 == 10)"
+    want = {
+        ("inc", "line++"): (PS.dnf([(NL, True)]), "a newline starts a new line"),
+        ("assign", "(column = 1)"): (PS.dnf([(NL, True)]), "a newline resets the column to 1"),
+        ("inc", "column++"): (PS.dnf([(NL, False)]), "every other byte (tab and CR included) advances the column by one"),
+        ("inc", "$0++"): (PS.dnf([]), "every byte of [start, end) is visited exactly once"),
+    }
+    # a test on another character is a special case the property forbids
+    others = sorted({a for c in conds.values() for conj in c for a, p in conj if a != NL})
+    if others:
+        chk.violation("POS-U", site, "POS-U:update:special-char", "the position update also depends on %s; only '\\n' ends a "
+                                                                  "line and nothing else is special" % others)
+        return
+    PS.compare(chk, "POS-U", f, loop, conds, nodes, want)
 
 
 def _is(effs, want):
